@@ -91,12 +91,15 @@ def probe(names=("x", "y")):
     return Text(*parts)
 
 
-def c01_f1(tier):
-    """one element carrying every subset of the eight statements, one child"""
+def c01_f1(tier, tag="el"):
+    """one element carrying every subset of the eight statements, one child; tag="ns": the element is one of the
+    template language's own namespace (<tal:block ...>), whose tag is never rendered (no tal:attributes there)"""
     progs = []
     for r in range(0, len(KINDS) + 1):
         for sub in itertools.combinations(KINDS, r):
             if "content" in sub and "replace" in sub:
+                continue
+            if tag == "ns" and "attrs" in sub:
                 continue
             foci = [None] if tier == "quick" else (list(sub) or [None])
             for focus in foci:
@@ -106,14 +109,14 @@ def c01_f1(tier):
                     items.append(Open(sw=al.call("switch"), name="section"))
                     items.append(Text("\n  "))
                 # the static attribute that tal:attributes may keep (`default`) is written with character entities
-                items.append(element(al, sub, sattr=(("class", {"v": "R&amp;D 1 &lt; 2"}),) if "attrs" in sub else ("class",)))
+                items.append(element(al, sub, sattr=(("class", {"v": "R&amp;D 1 &lt; 2"}),) if "attrs" in sub else ("class",), tag=tag))
                 items.append(probe())
                 items.append(CLOSE)
                 if "case" in sub:
                     items.append(CLOSE)
                 items.append(Text("post"))
                 items.append(probe())
-                progs.append(program(items, al.dom, fam="C01.F1:" + "+".join(sub) + (" focus=" + focus if focus else "")))
+                progs.append(program(items, al.dom, fam="C01.F1%s:" % ("" if tag == "el" else tag) + "+".join(sub) + (" focus=" + focus if focus else "")))
     return progs
 
 
